@@ -126,6 +126,19 @@ pub fn rich_asts() -> Vec<File> {
     // default-rule clauses
     out.push(File { lets: vec![Let { name: "g".into(), val: Arg::Lit(i(1)) }], rules: vec![], default: vec![vec![bin(a(), BinOp::Eq, false, i(1)), un(vec![key("b")], UnOp::Exists, false)], vec![c5.clone()]] });
     out.push(File { lets: vec![], rules: vec![rule("r0", vec![vec![c2]])], default: vec![vec![c3]] });
+    // filters whose last clause is a block, a when block, a clause with a message (the closing bracket after `}` / `>>`)
+    {
+        let exq = |k: &str| un(vec![key(k)], UnOp::Exists, false);
+        let blk_in = Clause::Block { some: false, q: vec![key("b"), Part::All], not_empty: false, lets: vec![], body: vec![vec![exq("c")]] };
+        let when_in = Clause::When { cond: vec![vec![exq("b")]], lets: vec![], body: vec![vec![exq("c"), exq("b")]] };
+        let msg_in = bin(vec![key("c")], BinOp::Eq, false, i(1)).with_msg("in filter");
+        for last in [blk_in, when_in, msg_in] {
+            let f1 = Part::Filter(vec![vec![exq("b")], vec![last.clone()]]);
+            let f2 = Part::Filter(vec![vec![last.clone()]]);
+            out.push(file1(rule("r0", vec![vec![un(vec![key("a"), f1.clone(), key("b")], UnOp::Exists, false)], vec![un(vec![key("a"), f2.clone()], UnOp::Empty, true)]])));
+            out.push(file1(rule("r0", vec![vec![Clause::Block { some: false, q: vec![key("a"), f1], not_empty: false, lets: vec![], body: vec![vec![exq("b")]] }]])));
+        }
+    }
     // every kind of clause the grammar admits outside a rule, next to named and parameterised rules it can refer to
     let ex = |k: &str| un(vec![key(k)], UnOp::Exists, false);
     let r0s = rule("r0", vec![vec![ex("a")]]);
